@@ -3,7 +3,7 @@
 export GOFLAGS=-mod=mod GOPROXY=off GOSUMDB=off GOTOOLCHAIN=local GOWORK=off
 op=${1:-value}; n=${2:-2000}; seed=${3:-1}
 (cd /verif/harness && go build -tags verif -o /verif/bin/harness .) || exit 1
-(cd /verif/lean && lake build driver 2>&1 | grep -v '^trace' | grep -B2 -A12 'error' | head -60)
+(cd /verif/lean && lake build driver 2>&1 | grep -A12 '^error' | head -60)
 /verif/bin/harness gen $op --seed $seed --n $n | /verif/bin/harness run > /tmp/v.jsonl && /verif/lean/.lake/build/bin/driver < /tmp/v.jsonl > /tmp/r.jsonl
 python3 - <<'PY'
 import json,collections
